@@ -10,12 +10,12 @@ from pathlib import Path
 VERIF = Path(__file__).resolve().parent.parent
 pid = sys.argv[1]
 dirs = sorted((VERIF / "seeded").glob(pid + "-*"))
-patches = [str(d / "patch.diff") for d in dirs]
+patches = [str(d / "patch.ported.diff") if (d / "patch.ported.diff").exists() else str(d / "patch.diff") for d in dirs]
 out = subprocess.run([sys.executable, str(VERIF / "tools/selftest.py"), pid, *patches], capture_output=True, text=True, cwd=VERIF).stdout
 print(out)
 # selftest prints one line per patch starting with the file name "patch.diff": map by order
-verdicts = [l for l in out.splitlines() if l.startswith("patch.diff")]
-details = re.split(r"^patch\.diff.*$", out, flags=re.M)[1:]
+verdicts = [l for l in out.splitlines() if l.startswith("patch.diff") or l.startswith("patch.ported.diff")]
+details = re.split(r"^patch\.(?:ported\.)?diff.*$", out, flags=re.M)[1:]
 for d, v, det in zip(dirs, verdicts, details + [""] * len(dirs)):
     m = json.loads((d / "meta.json").read_text())
     log = (d / "confirm.log").read_text() if (d / "confirm.log").exists() else ""
@@ -24,6 +24,8 @@ for d, v, det in zip(dirs, verdicts, details + [""] * len(dirs)):
               "100% tests passed, 0 tests failed out of 10" in log and "patch_applies=yes" in log)
         m["confirmed"] = ("yes: patch applies, all 10 ctest tests pass with it, demo exits 0 on the pristine tree and non-zero with the change "
                           "(tools/seed_confirm.sh, log in confirm.log)") if ok else "NO - see confirm.log"
+    if m.get("check_result", "pending") not in ("pending",) and "first_measurement" not in m:
+        m["first_measurement"] = m["check_result"]
     m["check_result"] = ("caught" if " caught " in v else "MISSED") + ": " + " ".join(v.split()[2:])[:300] + " | " + " ".join(det.split())[:400]
     m["what_was_run"] = "python3 tools/selftest.py %s seeded/%s/patch.diff (quick tier, VERIF_REPO = scratch worktree with the patch)" % (pid, d.name)
     (d / "meta.json").write_text(json.dumps(m, indent=1))
